@@ -5,8 +5,8 @@
    that has a text at all: all integers of any size and all numbers with at most 40 decimal places (C04_constants), so `printable`
    is the purely structural predicate `shape` (C04_structural). *)
 From Coq Require Import List NArith ZArith QArith Bool Reals.
-From Mathy Require Import Num Expr Parser Printer Sem.
-From MathyProofs Require Import PrintTokens PrintGrammar PrintPhrase PrintParse PrintInt PrintDec.
+From Mathy Require Import Num Expr Parser Printer Sem Rules Walk.
+From MathyProofs Require Import PrintTokens PrintGrammar PrintPhrase PrintParse PrintInt PrintDec VarsFacts RulesVarsD ShapeFacts RulesShapeD ParserShape.
 Import ListNotations.
 
 (* the text of a printable tree is accepted by the parser, and the re-parsed tree has the same value at EVERY assignment (defined
@@ -62,6 +62,55 @@ Theorem C04_structural : forall e, shape e ->
   exists s e', show_top e = Some s /\ parse s = Ok e' /\ (forall rho, den rho e' = den rho e) /\ vars e' = vars e.
 Proof. intros e H. apply C04_print_then_parse. now apply shape_printable. Qed.
 Print Assumptions C04_structural.
+
+(* The class is closed under the rewrite rules, up to the constants a rule creates: from a tree of the class with at most one '='
+   every sequence of applicable rewrites (any rules, any nodes) leads to a tree with the same structure (no '=' below the root,
+   factorial only of literals: RulesShapeD) and the same variables (RulesVarsD); so whenever its constants still have a text, it
+   prints and re-parses to the same meaning - after every step. (A fold can produce a constant with more decimal places than the
+   printer model renders, 40: that is the one hypothesis left.) *)
+Lemma sk0_shape0 e : sk0 e -> (forall v, In v (vars e) -> Lexer.is_alpha v = true) -> (forall c, In c (consts e) -> show_num c <> None) -> shape0 e.
+Proof.
+  induction e as [c|v|u c IH|k l IHl r IHr]; cbn [sk0 shape0 vars consts]; intros S V K.
+  - apply K. now left.
+  - apply V. now left.
+  - destruct u; try (apply IH; assumption). split; [exact S|]. destruct S as (n & ->). cbn [shape0]. apply K. now left.
+  - destruct k; try contradiction; destruct S as (S1 & S2); (split; [apply IHl|apply IHr]); auto; intros x Hx; (apply V || apply K); apply in_or_app; auto.
+Qed.
+Lemma sk1_shape e : sk1 e -> (forall v, In v (vars e) -> Lexer.is_alpha v = true) -> (forall c, In c (consts e) -> show_num c <> None) -> shape e.
+Proof.
+  intros S V K. destruct e as [c|v|u c|k l r]; try (apply sk0_shape0; assumption).
+  destruct k; try (apply sk0_shape0; assumption). cbn [sk1 shape vars consts] in *. destruct S as (S1 & S2).
+  assert (shape0 l) as Hl by (apply sk0_shape0; auto; intros x Hx; (apply V || apply K); apply in_or_app; auto).
+  split; [|apply sk0_shape0; auto; intros x Hx; (apply V || apply K); apply in_or_app; auto].
+  destruct l as [| | |[] ? ?]; try exact Hl. contradiction.
+Qed.
+Theorem C04_round_trip_along_rewrites : forall root steps final,
+  sk1 root -> (forall v, In v (vars root) -> Lexer.is_alpha v = true) ->
+  run root steps = Some final -> (forall c, In c (consts final) -> show_num c <> None) ->
+  exists s e', show_top final = Some s /\ parse s = Ok e' /\ (forall rho, den rho e' = den rho final) /\ vars e' = vars final.
+Proof.
+  intros root steps final S V R K. apply C04_structural. apply sk1_shape; auto.
+  - eapply run_keeps_structure; eauto.
+  - intros v Hv. apply V. apply (run_same_vars steps root final R v). exact Hv.
+Qed.
+Print Assumptions C04_round_trip_along_rewrites.
+
+(* ... and everything the parser returns is in the class, provided its constants have a text: '=' only along the left spine from
+   the root, no '=' below it, factorial only of literals, variables letters (proofs/ParserShape.v). So a string that parses, prints
+   and re-parses to the same meaning. *)
+Lemma spine_shape e : sk_spine e -> (forall v, In v (vars e) -> Lexer.is_alpha v = true) -> (forall c, In c (consts e) -> show_num c <> None) -> shape e.
+Proof.
+  induction e as [c|v|u c IH|k l IHl r IHr]; intros S V K; try (apply sk0_shape0; assumption).
+  destruct k; try (apply sk0_shape0; assumption). cbn [sk_spine shape vars consts] in *. destruct S as (S1 & S2). split.
+  - apply IHl; auto; intros x Hx; (apply V || apply K); apply in_or_app; auto.
+  - apply sk0_shape0; auto; intros x Hx; (apply V || apply K); apply in_or_app; auto.
+Qed.
+Theorem C04_parsed_trees_round_trip : forall s0 e, parse s0 = Ok e -> (forall c, In c (consts e) -> show_num c <> None) ->
+  exists s e', show_top e = Some s /\ parse s = Ok e' /\ (forall rho, den rho e' = den rho e) /\ vars e' = vars e.
+Proof.
+  intros s0 e H K. destruct (parse_shape s0 e H) as (S & V). apply C04_structural. now apply spine_shape.
+Qed.
+Print Assumptions C04_parsed_trees_round_trip.
 
 (* equations: the re-parsed equation has the same solutions *)
 Theorem C04_equation_solutions : forall l r, printable (Bin KEq l r) ->
